@@ -1,1 +1,7 @@
 import BsVerif.Props.C02
+open BsVerif.Bp
+#print axioms C02_step_over_executes_once
+#print axioms C02_text_at_prompt
+#print axioms C02_text_after_remove
+#print axioms C02_native_equivalence
+#print axioms C02_resumes_on_original_bytes
